@@ -59,67 +59,10 @@ inductive HStep where
   | register (abc k : String)          -- `abc.register(k)`
   deriving Repr, Inhabited
 
-/-- the environment at a later moment: same code facts, another class table -/
-def _root_.Glom.C10.Env.withCls (env : Env) (ct : ClassTable) : Env := { env with cls := ct }
-
 /-- the run of a history from class table `ct`: one outcome per call, `none` per registration -/
 def runHist (env : Env) (p : Spec) (d : Option Arg) : List HStep → ClassTable → List (Option Out)
   | [], _ => []
   | .call t :: rest, ct => some (matchGlom (env.withCls ct) p d t) :: runHist env p d rest ct
   | .register a k :: rest, ct => none :: runHist env p d rest (registerCls ct a k)
-
-/-! ### copies of a spec: `copy.deepcopy(spec)`, `pickle.loads(pickle.dumps(spec))`
-
-  A deep copy rebuilds every node of the spec from the attribute values of the original —
-  *including* the marker objects that stand for "no default given" (`_MISSING` in Match / And / Or /
-  Switch / Optional, `RAISE` in Check), which the `glomit` methods recognise by identity.  What the
-  copy of such an attribute *is* comes from the extracted table `identityMarkers` (marker, way of
-  copying, is the copy the marker itself?): when the marker survives, the slot is still "absent";
-  when it does not, the slot holds an ordinary object, i.e. a default that is present.
-  (A shallow `copy.copy` rebuilds the top node only and keeps the attribute objects themselves.) -/
-
-/-- does `how` (`"deepcopy"` / `"pickle"`) map the marker to itself? -/
-def markerKept (ids : List (String × String × Bool)) (marker how : String) : Bool :=
-  ids.contains (marker, how, true)
-
-/-- the copy of a `default=` slot -/
-def copyDflt (kept : Bool) (marker : String) : Option Arg → Option Arg
-  | some a => some a
-  | none => if kept then none else some (.const (.obj marker))
-
-def copyKind (km : Bool) : KeyKind → KeyKind
-  | .opt d => .opt (copyDflt km "_MISSING" d)
-  | k => k
-
-mutual
-/-- `km`: `_MISSING` survives the copy, `kr`: `RAISE` does -/
-def deepCopy (km kr : Bool) : Spec → Spec
-  | .and cs d => .and (deepCopyL km kr cs) (copyDflt km "_MISSING" d)
-  | .or cs d => .or (deepCopyL km kr cs) (copyDflt km "_MISSING" d)
-  | .not c => .not (deepCopy km kr c)
-  | .switch cases d => .switch (deepCopyC km kr cases) (copyDflt km "_MISSING" d)
-  | .check a => .check { a with default := copyDflt kr "RAISE" a.default }
-  | .matchS s d => .matchS (deepCopy km kr s) (copyDflt km "_MISSING" d)
-  | .list cs => .list (deepCopyL km kr cs)
-  | .set cs => .set (deepCopyL km kr cs)
-  | .fset cs => .fset (deepCopyL km kr cs)
-  | .tuple cs => .tuple (deepCopyL km kr cs)
-  | .dict es => .dict (deepCopyD km kr es)
-  | s => s                               -- leaves: rebuilt from equal attribute values
-def deepCopyL (km kr : Bool) : List Spec → List Spec
-  | [] => []
-  | s :: ss => deepCopy km kr s :: deepCopyL km kr ss
-def deepCopyC (km kr : Bool) : List (Spec × Spec) → List (Spec × Spec)
-  | [] => []
-  | (k, v) :: r => (deepCopy km kr k, deepCopy km kr v) :: deepCopyC km kr r
-def deepCopyD (km kr : Bool) : List (KeyKind × Spec × Spec) → List (KeyKind × Spec × Spec)
-  | [] => []
-  | (kind, k, v) :: r => (copyKind km kind, deepCopy km kr k, deepCopy km kr v) :: deepCopyD km kr r
-end
-
-/-- `how(spec)` for the marker table `ids` -/
-def copySpec (ids : List (String × String × Bool)) (how : String) (s : Spec) : Spec :=
-  if how == "copy" then s
-  else deepCopy (markerKept ids "_MISSING" how) (markerKept ids "RAISE" how) s
 
 end Glom.C09
